@@ -121,6 +121,14 @@ def discharge(obls, timeout_ms=60000, second_solver=False, quick_ms=4000):
                 rest.append(o)
         return rest
 
+    # 0. the goal is literally among the hypotheses (modulo bound-variable names): wrapper functions re-stating a callee's clause
+    left = []
+    for o in todo:
+        if getattr(o, "syntactic", None) and o.syntactic():
+            o.verdict, o.backend, o.hyps_used = "discharged", "syntactic", "all"
+        else:
+            left.append(o)
+    todo = left
     # performance hint only (never a verdict): which ladder step discharged an obligation of this name last time
     hints = _load_hints()
     solvers = {"z3-5.1.0": _solve_z3py, "z3-4.8.12": _solve_z3cli, "cvc5-1.0.3": _solve_cvc5}
